@@ -1304,3 +1304,42 @@ func nilGuard(fn *ssa.Function, v ssa.Value) (iff *ssa.If, nonNil, isNil *ssa.Ba
 	}
 	return nil, nil, nil
 }
+
+// canonEdgeCond: canonical rendering of the condition that holds on successor edge idx of iff: comparisons
+// are expressed without a leading negation (the operator is flipped instead) and with a constant operand on the
+// right; other conditions get a leading "!" on the false edge.
+func canonEdgeCond(iff *ssa.If, idx int, norm func(string) string) string {
+	if norm == nil {
+		norm = func(s string) string { return s }
+	}
+	v := iff.Cond
+	for {
+		u, ok := v.(*ssa.UnOp)
+		if !ok || u.Op != token.NOT {
+			break
+		}
+		v = u.X
+		idx = 1 - idx
+	}
+	if b, ok := v.(*ssa.BinOp); ok {
+		if _, isCmp := negOp[b.Op]; isCmp {
+			op := b.Op
+			if idx == 1 {
+				op = negOp[op]
+			}
+			x, y := b.X, b.Y
+			if _, xc := x.(*ssa.Const); xc {
+				if _, yc := y.(*ssa.Const); !yc {
+					x, y = y, x
+					op = swapOp[op]
+				}
+			}
+			return "(" + norm(ex(x)) + " " + op.String() + " " + norm(ex(y)) + ")"
+		}
+	}
+	s := norm(ex(v))
+	if idx == 1 {
+		return "!" + s
+	}
+	return s
+}
